@@ -90,6 +90,14 @@ class NT(tuple):
         return o
 
 
+class PArr:
+    """a numpy array seen at one arbitrary index: element-wise code is verified pointwise (the same formula at every
+    index); masks are booleans at that index.  `diag` says whether the index lies on the diagonal."""
+
+    def __init__(self, e, diag=None):
+        self.e, self.diag = e, diag
+
+
 class IterV:
     """a lazily described finite sequence: n (int or z3 Int) and get(i) -> value."""
 
